@@ -159,6 +159,7 @@ type ChartSpec struct {
 	Subcharts []SubchartSpec         `json:"subcharts,omitempty"`
 	CRDs      []string               `json:"crds,omitempty"` // names of CRDs in crds/
 	RawFiles  map[string]string      `json:"rawFiles,omitempty"`
+	SepStyle  map[string]string      `json:"sepStyle,omitempty"` // template file -> how documents are separated: "", crlf, comment, spaces, doubled
 }
 
 // ---- operations ----
